@@ -58,6 +58,8 @@ case "${1:-}" in
       rm -f "$VERIF_DIR/target-disabled/c16-disabled.json"
       "$VERIF_DIR/target-disabled/release/dst-disabled" "$n" "$(( ${VERIF_SEED:-1} * 1000003 ))" "$VERIF_DIR/target-disabled/c16-disabled.json" >/dev/null
     fi
+    # warn (never fail) when the tree reads a clock / sleeps / spawns / draws randomness outside the seams
+    python3 "$VERIF_DIR/tools/seam_audit.py" || true
     exec "$BIN" drive --prop "$id" --tier "$tier" "$@"
     ;;
   *)
